@@ -438,6 +438,23 @@ class ExcFlow:
                 return
             if isinstance(e, ast.Call) and call_name(e) in ('repr', 'ascii', 'len', 'int', 'id', 'hash', 'ord'):
                 return
+            if isinstance(e, ast.BinOp) and isinstance(e.op, ast.Mod):
+                tmpl = self.inv.folder.try_ev(mod.name, e.left, default=None)
+                if isinstance(tmpl, str) and '%s' not in tmpl and '%(' not in tmpl.replace('%%', ''):
+                    return                                   # %r / %a / numeric conversions only: escaped
+            if isinstance(e, ast.Call) and isinstance(e.func, ast.Attribute) and e.func.attr == 'format':
+                tmpl = self.inv.folder.try_ev(mod.name, e.func.value, default=None)
+                if isinstance(tmpl, str):
+                    import string
+                    try:
+                        fields = [(name, conv) for _, name, _, conv in string.Formatter().parse(tmpl) if name is not None]
+                    except ValueError:
+                        fields = None
+                    if fields is not None and all(conv in ('r', 'a') for _, conv in fields):
+                        return
+                    for a in list(e.args) + [k.value for k in e.keywords]:
+                        piece(a, depth)
+                    return
             if isinstance(e, ast.BinOp) and isinstance(e.op, (ast.Add, ast.Mod, ast.Mult)):
                 piece(e.left, depth)
                 piece(e.right, depth)
